@@ -26,6 +26,7 @@ class QueryBuilder:
         # sub-query objects live next to the variables: shared between the queries of a case exactly when those are
         self.subs = self.vars.setdefault("_subs", {}) if shared_vars is not None else {}
         self.flats = {}
+        self.shared_exprs = {}
         self.sel_exprs = []
         self.query = None
         self.domlists = []
@@ -79,6 +80,20 @@ class QueryBuilder:
 
     # -- value expressions ------------------------------------------------
     def expr(self, e):
+        k = e["k"]
+        if k in ("attr", "idx", "mcall") and self.q.get("shareexprs"):
+            # `f = x.n`, selected and used once in the conditions: one expression object for both occurrences (as the
+            # repository's examples select `handle = fixed_connection.child`).  An expression that occurs more than once
+            # in the conditions is written out again there: expression objects are tree nodes with one parent, not_()
+            # inverts its operand in place - one object in two condition positions is outside what the library supports.
+            key = json.dumps(e, sort_keys=True)
+            if json.dumps(self.q.get("cond"), sort_keys=True).count(key) <= 1:
+                if key not in self.shared_exprs:
+                    self.shared_exprs[key] = self._expr(e)
+                return self.shared_exprs[key]
+        return self._expr(e)
+
+    def _expr(self, e):
         k = e["k"]
         if k == "var":
             return self.var(e["i"])
